@@ -28,7 +28,7 @@ def main():
         if tier == "thorough":
             # checker self-tests first (their result is part of the evidence); the verdict below is about /repo itself
             rep.selftest = core.selftest(pid, mod, int(os.environ.get("VERIF_SEED", "0") or 0))
-            print("self-test: %d/%d seeded variants detected, %d skipped" % (rep.selftest["detected"], rep.selftest["variants"], len(rep.selftest["skipped"])))
+            print("self-test: %d/%d seeded variants detected, %d skipped; %d/%d behaviour-preserving refactorings silent" % (rep.selftest["detected"], rep.selftest["variants"], len(rep.selftest["skipped"]), rep.selftest["neutral_silent"], rep.selftest["neutral"]))
         try:
             rc = mod.check(F, rep, tier)
         except core.CheckBroken:
